@@ -1,0 +1,32 @@
+//go:build verif
+
+package compress
+
+import "math"
+
+// C08 lemma: one value through the real encoder and then the real decoder
+// comes back bit-identical, and the coupling between the two state machines
+// (the induction hypothesis over the samples of a series) is re-established.
+// Proved from the contracts of compressValue / decompressValue only.
+
+//@ func verifLemmaValueRoundTrip
+//@   props C08
+//@   lemma
+//@   requires c != nil && d != nil && c.bw != nil && d.br != nil && !isNaN(v)
+//@   requires ghost(c.bw, "sid") == ghost(d.br, "sid") && ghost(d.br, "rpos") == ghost(c.bw, "wpos") && ghost(c.bw, "wpos") >= 0 && ghost(c.bw, "wpos") <= 1000000000
+//@   requires d.value == c.value && encStateOK(c.leadingZeros, c.trailingZeros) && coupled(c.leadingZeros, c.trailingZeros, d.leadingZeros, d.trailingZeros)
+//@   requires ghost(d, "elz") == c.leadingZeros && ghost(d, "etz") == c.trailingZeros && ghost(d, "expect") == f64bits(v)
+//@   ensures [bit-identical] result
+//@ end
+
+func verifLemmaValueRoundTrip(c *Compressor, d *Decompressor, v float64) bool {
+	if _, err := c.compressValue(v); err != nil {
+		return true // write error of the underlying io.Writer: not a codec outcome
+	}
+	got, err := d.decompressValue()
+	if err != nil {
+		return true // read error of the underlying io.Reader
+	}
+	return math.Float64bits(got) == math.Float64bits(v) && d.value == c.value &&
+		(c.leadingZeros == 255 || (c.leadingZeros == d.leadingZeros && c.trailingZeros == d.trailingZeros))
+}
